@@ -194,6 +194,12 @@ pub fn check(case: &Case, out: &Outcome) -> CaseResult {
             ));
         }
     }
+    // a specific, separately keyed stall: STREAM_DATA_BLOCKED although granted credit is unused
+    if out.q.end != End::Done && out.q.end != End::Capped {
+        if let Some(msg) = blocked_with_unused_credit(out) {
+            return Err(Fail::new("c07:s2n-blocked-with-unused-stream-credit", format!("{msg}. {}", d())));
+        }
+    }
     // a specific, separately keyed stall: the client's Finished is lost and never sent again
     if let Some(msg) = finished_never_retransmitted(case, out) {
         return Err(Fail::new("c07:client-finished-lost-never-retransmitted", format!("{msg}. {}", d())));
@@ -352,6 +358,56 @@ pub fn check(case: &Case, out: &Outcome) -> CaseResult {
         End::Stalled => Err(Fail::new("c07:stalled", format!("no application byte moved for {} s of virtual time on a clean network, without any error on either side. {}", case::STALL_MS / 1000, d()))),
         other => Err(Fail::new("c07:ended-early", format!("the run ended as {other:?} without an error on either side and without the scripted work being done. {}", d()))),
     }
+}
+
+/// The run did not finish and s2n-quic's last word on some stream is STREAM_DATA_BLOCKED at limit L while
+/// the highest stream offset it ever put on the wire is below L (and L is the largest limit it was given).
+fn blocked_with_unused_credit(out: &Outcome) -> Option<String> {
+    use std::collections::BTreeMap;
+    let mut sent_end: BTreeMap<u64, u64> = BTreeMap::new();
+    let mut last_blocked: BTreeMap<u64, (u64, u64)> = BTreeMap::new();
+    let mut granted: BTreeMap<u64, u64> = BTreeMap::new();
+    let mut last_stream_tx: BTreeMap<u64, u64> = BTreeMap::new();
+    for r in &out.recs {
+        match &r.ev {
+            Ev::Tx { frames: Ok(frames), .. } => {
+                for f in frames {
+                    match f {
+                        WFrame::Stream { id, off, len, .. } => {
+                            let e = sent_end.entry(*id).or_default();
+                            *e = (*e).max(off + len);
+                            last_stream_tx.insert(*id, r.t_us);
+                        }
+                        WFrame::StreamDataBlocked { id, limit } => {
+                            last_blocked.insert(*id, (*limit, r.t_us));
+                        }
+                        _ => {}
+                    }
+                }
+            }
+            Ev::Rx { frames: Ok(frames), .. } => {
+                for f in frames {
+                    if let WFrame::MaxStreamData { id, max } = f {
+                        let e = granted.entry(*id).or_default();
+                        *e = (*e).max(*max);
+                    }
+                }
+            }
+            _ => {}
+        }
+    }
+    for (id, (limit, t)) in &last_blocked {
+        let sent = sent_end.get(id).copied().unwrap_or(0);
+        let newer_grant = granted.get(id).copied().unwrap_or(0) > *limit;
+        let sent_later = last_stream_tx.get(id).map(|x| x > t).unwrap_or(false);
+        if sent < *limit && !newer_grant && !sent_later {
+            return Some(format!(
+                "s2n-quic's last frames for stream {id} are STREAM_DATA_BLOCKED with limit {limit} (last at t={t}us), but the highest offset it ever sent on that stream is {sent}: it reports being blocked while {} byte(s) of granted stream credit are unused, and never sends them; a receiver that raises the limit only when the advertised credit is consumed (quiche: available < window/2) never does, and the stream stalls until the idle timeout",
+                limit - sent
+            ));
+        }
+    }
+    None
 }
 
 /// s2n-quic as client: a Handshake packet carrying CRYPTO data was declared lost after the TLS handshake
@@ -532,14 +588,14 @@ pub fn subs() -> Vec<Box<dyn SubCheck>> {
     vec![
         Box::new(PropCheck::<Case, _> {
             name: "s2n_client_quiche_server",
-            cases: |t| t.pick(8_000, 150_000),
+            cases: |t| t.pick(6_000, 250_000),
             strategy: |_t: Tier| case::case(true),
             oracle,
             max_shrink_iters: 60,
         }),
         Box::new(PropCheck::<Case, _> {
             name: "quiche_client_s2n_server",
-            cases: |t| t.pick(8_000, 150_000),
+            cases: |t| t.pick(6_000, 250_000),
             strategy: |_t: Tier| case::case(false),
             oracle,
             max_shrink_iters: 60,
